@@ -51,8 +51,18 @@ type Schema struct {
 var strLens = []int{0, 5, 1, 2, 127, 128, 255, 256, 16383, 16384, 32767, 32768, 65534, 65535, weirdLen}
 
 const weirdLen = -1
+const rawLen = -2
 
-var weirdContent = []byte("\x00\xff+$%s%!\n\"\\ \xc3")
+var binLens = append(append([]int{}, strLens...), rawLen)
+
+// valid UTF-8 only (a decoder may legitimately refuse ill-formed UTF-8 in
+// string fields): wildcard and format characters, quotes, a 2-, 3- and
+// 4-byte rune, U+FFFD, a byte order mark, and the control characters TAB and
+// DEL (discouraged by MQTT, not forbidden)
+var weirdContent = []byte("+$%s%!\"\\ \t\u007f\u00e9\u20ac\U0001d11e\ufffd\ufeff#")
+
+// rawContent is for binary fields only: bytes that are no UTF-8 at all
+var rawContent = []byte{0x00, 0xff, 0xfe, 0x80, 0x00, 0xc3}
 var u16s = []uint32{0, 0x0102, 1, 255, 256, 32767, 32768, 65535}
 var u32s = []uint32{0, 0x01020304, 1, 65535, 65536, 0x7fffffff, 0x80000000, 0xffffffff}
 var subIDs = []uint32{0, 258, 1, 127, 128, 16383, 16384, 2097151, 2097152, 268435455}
@@ -66,6 +76,9 @@ func Content(tag byte, n int) []byte {
 	}
 	if n == weirdLen {
 		return append([]byte{tag}, weirdContent...)
+	}
+	if n == rawLen {
+		return append([]byte{tag}, rawContent...)
 	}
 	cyc := []byte{'a', '/', '#', 0xc3, 0xa9}
 	b := make([]byte, n)
@@ -85,6 +98,13 @@ func strSlot(name, group string, tag byte, set func(p *spec.Packet, b []byte)) S
 		Big: func(i int) bool { return strLens[i] >= 16383 }}
 }
 
+// binSlot is strSlot for binary data: one more value with raw bytes.
+func binSlot(name, group string, tag byte, set func(p *spec.Packet, b []byte)) Slot {
+	return Slot{Name: name, Group: group, N: len(binLens), Primary: 1,
+		Set: func(p *spec.Packet, i int) { set(p, Content(tag, binLens[i])) },
+		Big: func(i int) bool { return binLens[i] >= 16383 }}
+}
+
 func addProp(p *spec.Packet, will bool, pr spec.Prop) {
 	if will {
 		if p.Will != nil {
@@ -98,6 +118,10 @@ func addProp(p *spec.Packet, will bool, pr spec.Prop) {
 func propStr(name, group string, id byte, tag byte) Slot {
 	will := group == "will"
 	return strSlot(name, group, tag, func(p *spec.Packet, b []byte) { addProp(p, will, spec.Prop{ID: id, B: b}) })
+}
+func propBin(name, group string, id byte, tag byte) Slot {
+	will := group == "will"
+	return binSlot(name, group, tag, func(p *spec.Packet, b []byte) { addProp(p, will, spec.Prop{ID: id, B: b}) })
 }
 func propU16(name, group string, id byte) Slot {
 	will := group == "will"
@@ -156,7 +180,7 @@ var seqPrimary = func() int {
 	return 1
 }()
 
-var userAlphabet = [][2]string{{"k", "v"}, {"k", "w"}, {"kk", ""}}
+var userAlphabet = [][2]string{{"k", "v"}, {"k", "w\ufffd\u20ac"}, {"kk", ""}}
 
 func userSlot(group string) Slot {
 	will := group == "will"
@@ -241,10 +265,10 @@ func connectSchema() *Schema {
 		propBool("reqresponseinfo", "top", 0x19),
 		propBool("reqprobleminfo", "top", 0x17),
 		propStr("authmethod", "top", 0x15, 'M'),
-		propStr("authdata", "top", 0x16, 'D'),
+		propBin("authdata", "top", 0x16, 'D'),
 		userSlot("top"),
 		strSlot("username", "top", 'U', func(p *spec.Packet, b []byte) { p.HasUser = len(b) > 0; p.User = b }),
-		strSlot("password", "top", 'P', func(p *spec.Packet, b []byte) { p.HasPass = len(b) > 0; p.Pass = b }),
+		binSlot("password", "top", 'P', func(p *spec.Packet, b []byte) { p.HasPass = len(b) > 0; p.Pass = b }),
 		{Name: "protoname", Group: "proto", N: len(protoNames), Primary: 1, NonDefaultProto: true,
 			Set: func(p *spec.Packet, i int) { p.ProtoName = []byte(protoNames[i]) }},
 		{Name: "protover", Group: "proto", N: len(protoVers), Primary: 1, NonDefaultProto: true,
@@ -266,7 +290,7 @@ func connectSchema() *Schema {
 				p.Will.Topic = b
 			}
 		}),
-		strSlot("will.payload", "will", 'L', func(p *spec.Packet, b []byte) {
+		binSlot("will.payload", "will", 'L', func(p *spec.Packet, b []byte) {
 			if p.Will != nil {
 				p.Will.Payload = b
 			}
@@ -276,7 +300,7 @@ func connectSchema() *Schema {
 		propU32("will.expiry", "will", 0x02),
 		propStr("will.contenttype", "will", 0x03, 'Y'),
 		propStr("will.responsetopic", "will", 0x08, 'R'),
-		propStr("will.correlation", "will", 0x09, 'O'),
+		propBin("will.correlation", "will", 0x09, 'O'),
 		userSlot("will"),
 		// fields of the will *Publish that a CONNECT cannot carry: they must
 		// not leak onto the wire
@@ -318,7 +342,7 @@ func connackSchema() *Schema {
 		propStr("responseinfo", "top", 0x1a, 'I'),
 		propStr("serverreference", "top", 0x1c, 'F'),
 		propStr("authmethod", "top", 0x15, 'M'),
-		propStr("authdata", "top", 0x16, 'D'),
+		propBin("authdata", "top", 0x16, 'D'),
 		userSlot("top"),
 	}
 	return s
@@ -337,7 +361,7 @@ func publishSchema() *Schema {
 		propU32("expiry", "top", 0x02),
 		propU16("topicalias", "top", 0x23),
 		propStr("responsetopic", "top", 0x08, 'R'),
-		propStr("correlation", "top", 0x09, 'O'),
+		propBin("correlation", "top", 0x09, 'O'),
 		propStr("contenttype", "top", 0x03, 'Y'),
 		userSlot("top"),
 		{Name: "subids", Group: "top", N: len(seq33), Primary: seqPrimary, Set: func(p *spec.Packet, i int) {
@@ -345,7 +369,7 @@ func publishSchema() *Schema {
 				p.Props = append(p.Props, spec.Prop{ID: 0x0b, N: subIDAlphabet[a]})
 			}
 		}},
-		strSlot("payload", "top", 'L', func(p *spec.Packet, b []byte) { p.Payload = b }),
+		binSlot("payload", "top", 'L', func(p *spec.Packet, b []byte) { p.Payload = b }),
 	}
 	return s
 }
@@ -376,9 +400,9 @@ func subscribeSchema() *Schema {
 			p.Props = append(p.Props, spec.Prop{ID: 0x0b, N: subIDs[i]})
 		}},
 		userSlot("top"),
-		{Name: "filters", Group: "top", N: len(fl) + nOpts + len(strLens) - 2, Primary: seqPrimary,
+		{Name: "filters", Group: "top", N: len(fl) + nOpts + len(strLens) - 2 + 1, Primary: seqPrimary,
 			WellFormed: func(i int) bool { return i != 0 },
-			Big:        func(i int) bool { return i >= len(fl)+nOpts && strLens[i-len(fl)-nOpts+2] >= 16383 },
+			Big:        func(i int) bool { return i >= len(fl)+nOpts && i < len(fl)+nOpts+len(strLens)-2 && strLens[i-len(fl)-nOpts+2] >= 16383 },
 			Set: func(p *spec.Packet, i int) {
 				switch {
 				case i < len(fl):
@@ -388,6 +412,10 @@ func subscribeSchema() *Schema {
 					}
 				case i < len(fl)+nOpts:
 					p.Filters = append(p.Filters, spec.Filter{Topic: []byte("t/+"), Opts: validSubOpts[i-len(fl)]})
+				case i == len(fl)+nOpts+len(strLens)-2:
+					// filters whose content has a meaning to brokers
+					p.Filters = append(p.Filters, spec.Filter{Topic: []byte("$share/grp/a/#"), Opts: 0x05},
+						spec.Filter{Topic: []byte("$SYS/#"), Opts: 0}, spec.Filter{Topic: []byte("+/+/#"), Opts: 0x2e})
 				default:
 					n := strLens[i-len(fl)-nOpts+2]
 					p.Filters = append(p.Filters, spec.Filter{Topic: Content('F', n), Opts: 1},
@@ -405,14 +433,18 @@ func unsubscribeSchema() *Schema {
 	s.Slots = []Slot{
 		packetIDSlot(),
 		userSlot("top"),
-		{Name: "filters", Group: "top", N: len(fl) + len(strLens) - 2, Primary: seqPrimary,
+		{Name: "filters", Group: "top", N: len(fl) + len(strLens) - 2 + 1, Primary: seqPrimary,
 			WellFormed: func(i int) bool { return i != 0 },
-			Big:        func(i int) bool { return i >= len(fl) && strLens[i-len(fl)+2] >= 16383 },
+			Big:        func(i int) bool { return i >= len(fl) && i < len(fl)+len(strLens)-2 && strLens[i-len(fl)+2] >= 16383 },
 			Set: func(p *spec.Packet, i int) {
 				if i < len(fl) {
 					for _, a := range fl[i] {
 						p.Filters = append(p.Filters, spec.Filter{Topic: append([]byte{}, filterAlphabet[a].Topic...)})
 					}
+					return
+				}
+				if i == len(fl)+len(strLens)-2 {
+					p.Filters = append(p.Filters, spec.Filter{Topic: []byte("$share/grp/a/#")}, spec.Filter{Topic: []byte("$SYS/#")})
 					return
 				}
 				n := strLens[i-len(fl)+2]
@@ -471,7 +503,7 @@ func authSchema() *Schema {
 	s.Slots = []Slot{
 		reasonSlot(),
 		propStr("authmethod", "top", 0x15, 'M'),
-		propStr("authdata", "top", 0x16, 'D'),
+		propBin("authdata", "top", 0x16, 'D'),
 		propStr("reasonstring", "top", 0x1f, 'S'),
 		userSlot("top"),
 	}
@@ -676,7 +708,12 @@ func WireView(p *spec.Packet) *spec.Packet {
 
 // StrLenAt returns the length denoted by value index i of a string slot
 // (weirdLen, -1, for the unusual-content value).
-func StrLenAt(i int) int { return strLens[i] }
+func StrLenAt(i int) int {
+	if i < len(strLens) {
+		return strLens[i]
+	}
+	return binLens[i]
+}
 
 // NumStrLens is the domain size of string slots; NumSeqs of list slots.
 var NumStrLens = len(strLens)
